@@ -153,6 +153,10 @@ func verifTimers(on bool)                  {}
 // verifWaitQuiescent: natively wait until the recorded schedule has reached the harness's own next turn (or its end),
 // then give parked goroutines time to settle.
 func verifWaitQuiescent() {
+	if verifRaceMode {
+		veriftime.Sleep(300 * veriftime.Millisecond)
+		return
+	}
 	deadline := veriftime.Now().Add(4 * veriftime.Second)
 	for {
 		verifSch.mu.Lock()
@@ -250,6 +254,9 @@ func verifSchInit() {
 // verifMainHere binds logical thread 0 to the calling goroutine (the generated replay test calls it first: package
 // initialisers may already have passed a gate on the runtime's main goroutine, which is not the test's goroutine).
 func verifMainHere() {
+	if verifRaceMode {
+		return
+	}
 	verifSch.mu.Lock()
 	verifSchInit()
 	for g, t := range verifSch.ids {
@@ -284,7 +291,15 @@ func verifLeave(tid int) {
 	verifSch.cond.Broadcast()
 }
 
+// verifRaceMode: native confirmation of a data race runs free under Go's race detector; the replay scheduler's own
+// mutex must not be touched then (it would order the goroutines and hide the race).
+var verifRaceMode = verifos.Getenv("VERIF_RACE") != ""
+
 func verifGo(f func()) {
+	if verifRaceMode {
+		go f()
+		return
+	}
 	tid := verifSpawn()
 	go func() {
 		verifEnter(tid)
@@ -346,6 +361,9 @@ func verifSched() {
 // verifBlocked counts goroutines (other than the harness) that are neither finished nor waiting at a schedule gate,
 // i.e. parked inside an operation. Meaningful after verifWaitQuiescent.
 func verifBlocked() int {
+	if verifRaceMode {
+		return 0
+	}
 	verifSch.mu.Lock()
 	defer verifSch.mu.Unlock()
 	verifSchInit()
